@@ -3,6 +3,7 @@ import Duckling.Lemmas.Prec
 import Duckling.Lemmas.RBasic
 import Duckling.Lemmas.LexDigits
 import Duckling.Lemmas.LexName
+import Duckling.Lemmas.LexFlat
 /-
   C04 — expressions evaluate with the documented precedence and typing.
 
@@ -29,6 +30,14 @@ import Duckling.Lemmas.LexName
   * `C04_lex_name`              a variable name that is in scope (first letter not T/F), standing alone, is scanned into exactly one Variable
                                  token whatever other names are in scope — prefixes and extensions of it included (the keyword matcher's
                                  candidate-set invariant; see C20_readable);
+  * `C04_flat_tokens`           **flat arithmetic of any length** — an unsigned number followed by any number of (operator, unsigned number)
+                                 pairs, written without blanks or parentheses, over all fourteen operators (`12+3*4`, `10//3-1`, `1<=2`, `7,8,9`) —
+                                 is scanned into exactly the alternating list of number and operator tokens.  Where an operator is a prefix of
+                                 another (`/` `//`, `<` `<=`, `>` `>=`) the keyword matcher reads on and decides at the next character; a number is
+                                 closed by the operator's first character, which is then scanned again as an operator.  One lemma per kind of token,
+                                 each for the scanner standing anywhere in the text (`Steps`), composed by induction over the pairs;
+  * `C04_flat_value`            **end to end**: `Tokenizer.tokenize` of such a text is the evaluation of the reference precedence parse (`refL`,
+                                 Stage A) of those tokens — scanner, tree builder and evaluator composed.
   That the scanner recognises every rendering of a compound expression (operators, blanks, parentheses, strings, names) is validated
   by the correspondence only (DESIGN.md C04) — `partial` in that respect.
 -/
@@ -129,6 +138,36 @@ theorem C04_lex_digits (vars : List Str) (ds : Str) (hne : ds ≠ []) (hall : ds
 
 theorem C04_tokenize_digits (vars : VarEnv) (ds : Str) (hne : ds ≠ []) (hall : ds.all isDigitC = true) :
     tokenize vars ds = .ok (.int (digitsVal ds)) := tokenize_digits vars ds hne hall
+
+theorem C04_flat_tokens (vars : List Str) (ds : Str) (rest : FlatRest) (hds : GoodNum ds) (hrest : GoodRest rest) :
+    lex vars (flatText ds rest) = .ok (flatToks ds rest) := lex_flat vars ds rest hds hrest
+
+theorem flatPairs_opsIn (rest : FlatRest) (hrest : GoodRest rest) : OpsIn ranks (flatPairs rest) := by
+  intro o ho
+  simp only [ops, flatPairs, List.map_map, List.mem_map, Function.comp] at ho
+  obtain ⟨t, ht, rfl⟩ := ho
+  have hr := opInfo_ranked (t.1, t.2.1) (hrest t ht).1
+  simp only [List.any_eq_true] at hr
+  obtain ⟨r, hrm, hrc⟩ := hr
+  exact ⟨fun o => r.contains (String.ofList o), by simp only [ranks, List.mem_map]; exact ⟨r, hrm, rfl⟩, hrc⟩
+
+/-- **scanner, tree builder and evaluator composed** on flat arithmetic -/
+theorem C04_flat_value (vars : VarEnv) (ds : Str) (rest : FlatRest) (hds : GoodNum ds) (hrest : GoodRest rest) :
+    tokenize vars (flatText ds rest) =
+      (evalTree vars (3 * (flatText ds rest).length + 9)
+        (refL ranks.reverse (Tree.leaf ⟨.num, ds, false⟩) (flatPairs rest)) >>= fun v => .ok v.normalise) := by
+  unfold tokenize evalFuel
+  rw [solveOpp]
+  simp only [lex_flat _ ds rest hds hrest, Outcome.bind_ok, toFlat_flatToks, C04_build _ _ (flatPairs_opsIn rest hrest),
+    List.isEmpty_nil, Bool.not_true, Bool.false_eq_true, if_false]
+
+/-- non-vacuity: `12+3*4` -/
+example : GoodNum "12".toList ∧ GoodRest [("+".toList, .math, "3".toList), ("*".toList, .math, "4".toList)] ∧
+    flatText "12".toList [("+".toList, .math, "3".toList), ("*".toList, .math, "4".toList)] = "12+3*4".toList := by
+  refine ⟨⟨by decide, by decide⟩, ?_, by decide⟩
+  intro t ht
+  simp only [List.mem_cons, List.mem_nil_iff, or_false] at ht
+  rcases ht with rfl | rfl <;> exact ⟨by decide, by decide, by decide⟩
 
 theorem C04_lex_name (names : List Str) (x : Str) (hin : names.contains x = true) (hlen : 0 < x.length) (hc : NameStart (x[0])) :
     lex names x = .ok [⟨.var, x, false⟩] := lex_name names x hin hlen hc
